@@ -7,6 +7,7 @@ import time
 
 from hypothesis import strategies as st
 
+from vf.alloc import Alloc
 from vf.core import CaseInfo, Family, Inconclusive, Violation
 
 ASSUMPTIONS = [
@@ -14,6 +15,8 @@ ASSUMPTIONS = [
     'F2 uses real unix sockets inside one process (server loop in a thread, SocketClient with 1-4 connections); response reordering is owned through generated handler latencies (asyncio.sleep and, rarely, a loop-blocking sleep)',
     'F3 uses real FIFOs (two threads of one process); large payloads are built (pattern * k), not drawn byte by byte',
     'None is never a payload (documented: a None request means "no argument")',
+    'F2: the client mints request ids with id(); a generated legal allocator (unique among live objects, may hand the number of a freed object to the next one) is assigned to the name id in mpservice.socket, '
+    'so that whether a freed number comes back is a generated dimension, not the mood of the memory allocator',
 ]
 
 
@@ -209,7 +212,7 @@ def e2e_spec(draw):
                     r['rt_ms'] = 20
         nthreads = draw(st.integers(3, 8))
         owners = [draw(st.sampled_from(list(range(nthreads)) * 3 + [nthreads])) for _ in range(nreq)]
-        return {'reqs': reqs, 'conns': draw(st.sampled_from([1, 1, 2])), 'nthreads': nthreads, 'owners': owners, 'gap_ms': 0}
+        return {'reqs': reqs, 'conns': draw(st.sampled_from([1, 1, 2])), 'nthreads': nthreads, 'owners': owners, 'gap_ms': 0, 'alloc_bits': draw(st.lists(st.sampled_from([1, 1, 1, 0]), min_size=1, max_size=8))}
     nreq = draw(st.integers(1, 12))
     reqs = []
     for i in range(nreq):
@@ -220,11 +223,12 @@ def e2e_spec(draw):
         reqs.append({'payload': payload, 'delay_ms': draw(st.sampled_from([0, 0, 1, 5, 20, 60])), 'block_ms': draw(st.sampled_from([0] * 12 + [150, 400])), 'fail': draw(st.sampled_from([False] * 10 + [True, 'TimeoutError']))})
     nthreads = draw(st.integers(1, min(8, nreq)))
     owners = [draw(st.integers(0, nthreads)) for _ in range(nreq)]  # == nthreads: part of the stream
-    return {'reqs': reqs, 'conns': draw(st.integers(1, 4)), 'nthreads': nthreads, 'owners': owners, 'gap_ms': draw(st.sampled_from([0, 0, 2, 10]))}
+    return {'reqs': reqs, 'conns': draw(st.integers(1, 4)), 'nthreads': nthreads, 'owners': owners, 'gap_ms': draw(st.sampled_from([0, 0, 2, 10])), 'alloc_bits': draw(st.lists(st.integers(0, 1), max_size=6))}
 
 
 def run_e2e(spec):
     from mpservice.multiprocessing.remote_exception import get_remote_traceback, is_remote_exception
+    import mpservice.socket as sockmod
     from mpservice.socket import SocketClient
 
     from vf.realproc import run_with_watchdog
@@ -234,6 +238,8 @@ def run_e2e(spec):
     del _SERVER['seen'][:]
     results = {}
     stream_out = []
+    alloc = Alloc(spec.get('alloc_bits', []))
+    sockmod.id = alloc  # request ids: legal (unique among live objects), recycling decided by generated bits
 
     def case():
         with SocketClient(path=_SERVER['path'], num_connections=spec['conns'], connection_timeout=20) as client:
@@ -248,7 +254,8 @@ def run_e2e(spec):
                     try:
                         results[i] = ('value', client.request('/', (i, r['payload'], r['delay_ms'], r['block_ms'], r['fail']), response_timeout=r['rt_ms'] / 1000.0 if r.get('rt_ms') else 60))
                     except BaseException as e:
-                        results[i] = ('exc', e)
+                        results[i] = ('exc', e.with_traceback(None))  # the frames would keep the request's Future alive
+                    e = None
 
             ths = [threading.Thread(target=requester, args=(k,)) for k in range(spec['nthreads'])]
             for t in ths:
@@ -272,6 +279,8 @@ def run_e2e(spec):
         _SERVER.clear()
         missing = [i for i, o in enumerate(spec['owners']) if o != spec['nthreads'] and i not in results]
         raise Violation('request_unanswered', f'requests {missing} never got a response (client did not finish within 60 s)', signature=['request_unanswered'])
+    finally:
+        sockmod.__dict__.pop('id', None)
 
     def judge(i, kind, y):
         r = spec['reqs'][i]
@@ -317,7 +326,7 @@ def run_e2e(spec):
             raise Violation('payload_corrupted', f'handler received {_describe(seen[i])} for request {i}', signature=['payload_corrupted', 'inbound'])
     multi = spec['conns'] >= 1 and len(spec['reqs']) >= 3 and len({r['delay_ms'] for r in spec['reqs']}) > 1
     big = any(_size(r['payload']) > 65536 for r in spec['reqs'])
-    return CaseInfo(nontrivial=multi or big, descriptor=[[(_describe(r['payload']), r['delay_ms'], r['block_ms'], r['fail']) for r in spec['reqs']], spec['conns'], spec['owners']], classes=(f"conns{spec['conns']}", 'big' if big else 'small', 'reordering' if multi else 'plain', 'stream' if sidx else 'no_stream'), metrics={'requests': len(spec['reqs'])}, sample={'requests': [(_describe(r['payload']), r['delay_ms'], r['fail']) for r in spec['reqs']][:8], 'conns': spec['conns'], 'threads': spec['nthreads']})
+    return CaseInfo(nontrivial=multi or big, descriptor=[[(_describe(r['payload']), r['delay_ms'], r['block_ms'], r['fail']) for r in spec['reqs']], spec['conns'], spec['owners']], classes=(f"conns{spec['conns']}", 'big' if big else 'small', 'reordering' if multi else 'plain', 'stream' if sidx else 'no_stream', 'id_recycled' if alloc.recycled else 'ids_fresh', 'impatient' if any(r.get('rt_ms') for r in spec['reqs']) else 'patient'), metrics={'requests': len(spec['reqs']), 'recycled_ids': alloc.recycled}, sample={'requests': [(_describe(r['payload']), r['delay_ms'], r['fail']) for r in spec['reqs']][:8], 'conns': spec['conns'], 'threads': spec['nthreads']})
 
 
 # --------------------------------------------------------------------------- F3 named pipes
